@@ -2201,6 +2201,7 @@ std::optional<network::SessionManager::HandshakeAcceptance> Node::handle_transpo
     const PeerId& peer_id,
     const protocol::TransportHandshakePayload& payload) {
     if (!network::KeyExchange::validate_public(payload.public_identity)) {
+        reputation_.record_failure(peer_id);
         return std::nullopt;
     }
 
